@@ -9,6 +9,7 @@
 package vsched
 
 import (
+	"context"
 	"fmt"
 	"os"
 	"reflect"
@@ -192,7 +193,8 @@ type Sched struct {
 	choose   Chooser
 	maxSteps int
 	killing  bool
-	late     map[*Task]bool // tasks whose final event arrived while another task was being waited for
+	late     map[*Task]bool       // tasks whose final event arrived while another task was being waited for
+	timers   []context.CancelFunc // timeout contexts of the code under test that are still armed (see FireTimers)
 	exec     *Exec
 	closedCh map[uintptr]reflect.Value
 	trace    bool
